@@ -164,3 +164,23 @@ Print Assumptions C03_nested_tokenize_ordered.
 Theorem C03_ordered_in_range : forall lo hi s, oseg lo hi s -> Forall (map_in lo hi) s.
 Proof. exact oseg_in. Qed.
 Print Assumptions C03_ordered_in_range.
+
+(* ---- the map of an inline container spans the lines its content was taken from ------------------ *)
+From MD Require Import Lemmas.Verbatim Lemmas.InlineContent.
+
+(* the paragraph rule, from any state and with any terminator callback that only answers: the three
+   tokens it appends carry the map [sl, nl) (the inline token too), nl is where the cursor ends, and
+   the inline content is strip(getLines(sl, nl, blkIndent)) - which is, line by line, one piece per
+   source line sl + i ([pieces]: a suffix of that line after at most 3 spaces from a split tab, only
+   blanks and container-prefix characters dropped; C08_get_lines_verbatim) *)
+Theorem C03_paragraph_content_lines :
+  forall term, term_fr term -> forall st sl el st',
+  r_paragraph term st sl el false = Ok (true, st') ->
+  exists nl raw op inl cl,
+    b_tokens st' = b_tokens st ++ [op; inl; cl]
+    /\ tmap op = Some (sl, nl) /\ tmap inl = Some (sl, nl) /\ b_line st' = nl
+    /\ get_lines st sl nl (b_blkIndent st) false = Ok raw
+    /\ tcontent inl = strip_by is_space raw
+    /\ (0 <= b_blkIndent st -> pieces st nl false sl raw).
+Proof. exact paragraph_inline_lines. Qed.
+Print Assumptions C03_paragraph_content_lines.
